@@ -1,4 +1,6 @@
 import Knut.Proofs.MTMDiff
+import Knut.Proofs.MTMMapped
+import Knut.Proofs.MTMShow
 import Knut.Properties.C03Report
 import Knut.Properties.C03Command
 /-!
@@ -9,6 +11,16 @@ import Knut.Properties.C03Command
   `Spec.stepBound V days a D_{k−1} D_k / 10⁸` of `Spec.mtm V days a D_k − Spec.mtm V days a D_{k−1}` (`D_{−1}` = the eve
   of the window): the change of the exact mark-to-market value inside the period, charged with the valuation steps
   inside that period only.
+* **mapped / collapsed rows** (`-m level[:suffix][,regex]`, `--remap`, `--account`) – `C03_row_mapped` (pipeline),
+  `C03_command_cell_mapped`: the cell of an asset/liability ROW `r` is within `Spec.stepBoundOver … S F_k D_k / 10⁸` of
+  `Spec.mtmOver … S D_k − Spec.mtmOver … S F_k`, `S = Spec.sourceAccounts (rowSel f r) days` the journal's accounts that
+  pass `--account` and that `--remap` + `-m` turn into `r`: the sum of the accounts' exact values, bounds summed;
+  cumulative and `--diff` (`cellEve`).  Helper modules `Proofs/MTMPlain.lean` (the stages before Query do not look at the
+  mapping: the inserts are the plain inserts mapped and filtered), `Proofs/MTMMapped.lean`.
+* **`-s regex`** – `C03_command_cell_show_other` (a row the regex does not match: name, one commodity cell, the cells of
+  `C03_command_cell_mapped`) and `C03_command_cell_show` (a row the regex matches: one line per commodity; the cell of
+  the line of `c` is within `Spec.stepCountOver … S F_k D_k c / 10⁸` of `Spec.mtmPosOver … S c D_k − Spec.mtmPosOver … S c F_k`,
+  and a commodity without a line has that difference within the bound of 0).  `Proofs/MTMPos.lean`, `Proofs/MTMShow.lean`.
 -/
 namespace Knut.C03
 open Knut Knut.Dec Knut.MTM Knut.LedgerCommand
@@ -167,6 +179,515 @@ example : (match BalanceCmd.entries exFlagsD exDirs with
         Spec.mtm "CHF" (Builder.ofList exDirs).build exA 4 = some (103333333325/1000000000) ∧
         Spec.stepBound "CHF" (Builder.ofList exDirs).build exA 2 3 = 1 ∧
         Spec.stepBound "CHF" (Builder.ofList exDirs).build exA 3 4 = 1)
+    | .error _ => false) = true := by decide +kernel
+
+/-! ## mapped / collapsed rows: `-m level[:suffix][,regex]`, `--remap`, `--account` -/
+
+/-- the flags of a valued report whose rows are accounts or collapsed accounts: any `-m`, `--remap`, `--account`,
+cumulative or `--diff`; no `-s`, no `--commodity` -/
+structure MappedFlags (f : BalanceFlags) (v : Commodity) : Prop where
+  valuation : f.valuation = some v
+  show_ : f.showCommodities = none
+  com : ∀ s, f.commodityFilter s = true
+
+/-- the accounts a report row `r` collects: they pass `--account`, and `--remap` followed by `-m` turns them into `r` -/
+def rowSel (f : BalanceFlags) (r a : Account) : Bool :=
+  f.accountFilter a.name && decide (shorten f.mapping (if f.remap a.name then swapType a else a) = some r)
+
+theorem srcSel_cfgOf (f : BalanceFlags) (part : Partition) (r : Account) : srcSel (cfgOf f part) r = rowSel f r := rfl
+
+/-- the eve of column `k` of the report: the previous period end in a `--diff` report (the day before the window start
+for the first column), the day before the window start in a cumulative report -/
+def cellEve (f : BalanceFlags) (part : Partition) (k : Nat) : Int :=
+  if f.diff then colEve part k else part.span.start - 1
+
+theorem sourceAccounts_daysOf (f : BalanceFlags) (ds : List Directive) (part : Partition) (sel : Account → Bool) :
+    Spec.sourceAccounts sel (daysOf f ds part) = Spec.sourceAccounts sel (Builder.ofList ds).build := by
+  unfold Spec.sourceAccounts
+  rw [← userPostings_core, core_daysOf, userPostings_core]
+
+theorem mtmOver_daysOf (f : BalanceFlags) (ds : List Directive) (part : Partition) (v : Commodity) (S : List Account) (D : Int) :
+    Spec.mtmOver v (daysOf f ds part) S D = Spec.mtmOver v (Builder.ofList ds).build S D := by
+  unfold Spec.mtmOver
+  have : (fun a => Spec.mtm v (daysOf f ds part) a D) = (fun a => Spec.mtm v (Builder.ofList ds).build a D) :=
+    funext (fun a => mtm_daysOf f ds part v a D)
+  rw [this]
+
+theorem stepBoundOver_daysOf (f : BalanceFlags) (ds : List Directive) (part : Partition) (v : Commodity) (S : List Account)
+    (F D : Int) : Spec.stepBoundOver v (daysOf f ds part) S F D = Spec.stepBoundOver v (Builder.ofList ds).build S F D := by
+  unfold Spec.stepBoundOver
+  have : (fun a => Spec.stepBound v (daysOf f ds part) a F D) = (fun a => Spec.stepBound v (Builder.ofList ds).build a F D) :=
+    funext (fun a => stepBound_daysOf f ds part v a F D)
+  rw [this]
+
+theorem rat_sub_zero (x : Rat) : x - 0 = x := by grind
+
+/-- **pipeline level, mapped row** (see `MTM.run_row_mapped`) -/
+theorem C03_row_mapped (cfg : BalCfg) (v : Commodity) (r : Account) (days : List Day) (stF : BalState) (F D : Int)
+    (hv : cfg.valuation = some v) (hcom : ∀ s, cfg.commodityFilter s = true) (hal : r.isAL = true) (hs : Sorted days)
+    (hcons : ∀ d ∈ days, ∀ t ∈ d.transactions, t.date = d.date)
+    (hz : ∀ d ∈ days, ∀ t ∈ d.transactions, ∀ p ∈ t.postings, p.value = 0)
+    (hinc : List.Pairwise (· < ·) (cfg.periods.map (·.stop))) (hD : D ∈ cfg.periods.map (·.stop))
+    (hF : IsEve cfg F D) (hDin : cfg.span.contains D = true)
+    (h : Balance.run cfg days = .ok stF) :
+    ∃ mD mF, Spec.mtmOver v days (Spec.sourceAccounts (srcSel cfg r) days) D = some mD ∧
+      Spec.mtmOver v days (Spec.sourceAccounts (srcSel cfg r) days) F = some mF ∧
+      ((accCum r stF.entries D - accCum r stF.entries F) - (mD - mF)).abs ≤
+        (Spec.stepBoundOver v days (Spec.sourceAccounts (srcSel cfg r) days) F D : Rat) / (10 : Rat) ^ 8 := by
+  obtain ⟨mD, mF, h1, h2, h3, h4, _⟩ := run_row_mapped cfg v r days stF F D hv hcom hal hs hcons hz hinc hD hF hDin h
+  refine ⟨mD, mF, h1, h2, ?_⟩
+  rw [← mul_ulp]
+  exact abs_le_of h3 h4
+
+/-- **the cells of a mapped / collapsed row.**  For every valued report without `-s` and `--commodity` — any
+`-m level[:suffix][,regex]`, `--remap`, `--account`, cumulative or `--diff`, every interval and window, closing on or
+off — and every directive list whose postings arrive unvalued: whenever the command produces a report and the
+asset/liability row account `r` has an insert, the rendered table has the row of `r`, and for every column `k` (period
+end `D_k`, eve `F_k` = `cellEve`) the cell is within `Spec.stepBoundOver … S F_k D_k / 10⁸` of
+`Spec.mtmOver … S D_k − Spec.mtmOver … S F_k`, where `S = Spec.sourceAccounts (rowSel f r) days` are the journal's
+accounts collected in the row: the sum of the exact mark-to-market values of the accounts mapped onto the row, with the
+bounds summed.  Both values exist. -/
+theorem C03_command_cell_mapped (f : BalanceFlags) (v : Commodity) (hf : MappedFlags f v)
+    (ds : List Directive) (hz : ∀ t, Directive.tx t ∈ ds → ∀ p ∈ t.postings, p.value = 0)
+    (es : List Entry) (part : Partition) (h : BalanceCmd.entries f ds = .ok (es, part))
+    (r : Account) (hal : r.isAL = true) (hmem : ∃ e ∈ es, e.account = r) :
+    ∃ pre post cells,
+      (BalanceReport.table (BalanceCmd.renderCfg f part) es).rows =
+        pre ++ [Cell.text (r.segments.getLast?.getD "").toList .left ((2 * (r.segments.length - 1) : Nat) : Int) :: cells] ++ post ∧
+      cells.length = part.endDates.length ∧
+      ∀ (k : Nat) (hk : k < part.endDates.length) (hk' : k < cells.length),
+        ∃ mD mF,
+          Spec.mtmOver v (Builder.ofList ds).build (Spec.sourceAccounts (rowSel f r) (Builder.ofList ds).build)
+            part.endDates[k] = some mD ∧
+          Spec.mtmOver v (Builder.ofList ds).build (Spec.sourceAccounts (rowSel f r) (Builder.ofList ds).build)
+            (cellEve f part k) = some mF ∧
+          (cellVal cells[k] - (mD - mF)).abs ≤
+            (Spec.stepBoundOver v (Builder.ofList ds).build (Spec.sourceAccounts (rowSel f r) (Builder.ofList ds).build)
+              (cellEve f part k) part.endDates[k] : Rat) / (10 : Rat) ^ 8 := by
+  obtain ⟨hpart, st, hrun, rfl⟩ := entries_ok h
+  obtain ⟨e, he, rfl⟩ := hmem
+  have hcv : (cfgOf f part).valuation = some v := hf.valuation
+  have hne := window_nonempty_of_entry_mapped (cfgOf f part) v hcv _ st hrun e he hal
+  have hspan := Performance.newPartition_span hpart
+  obtain ⟨hinc, hin⟩ := Performance.endDates_increasing hpart
+  have hne' : (BalanceCmd.window f (Builder.ofList ds)).start ≤ (BalanceCmd.window f (Builder.ofList ds)).stop := by
+    rw [← hspan]; exact hne
+  generalize hrc : BalanceCmd.renderCfg f part = rc
+  have hrv : rc.valuation.isSome = true := by rw [← hrc]; unfold BalanceCmd.renderCfg; rw [hf.valuation]; rfl
+  have hrs : ∀ s, rc.showCommodities s = false := by
+    intro s; rw [← hrc]; unfold BalanceCmd.renderCfg; rw [hf.show_]; rfl
+  have hrd : rc.diff = f.diff := by rw [← hrc]; rfl
+  have hre : rc.endDates = part.endDates := by rw [← hrc]; rfl
+  have hdc : (rc.valuation.isNone || rc.hasShowCommodities) = false := by
+    rw [← hrc]; unfold BalanceCmd.renderCfg; rw [hf.valuation, hf.show_]; rfl
+  obtain ⟨pre, post, hrows⟩ := table_has_row rc st.entries e he hal
+  rw [hdc] at hrows
+  have hdates : ∀ x ∈ st.entries.filter (fun e => e.account.isAL), x.account = e.account →
+      ∀ D', x.date = some D' → D' ∈ part.endDates := by
+    intro x hx _ D' hd
+    obtain ⟨txs, _, hes⟩ := run_pipelineRun (cfgOf f part) _ st hrun
+    have hx' := (List.mem_filter.mp hx).1
+    rw [hes] at hx'
+    obtain ⟨t, _, hdt⟩ := mem_queryTx_date (cfgOf f part) txs x hx'
+    rw [hdt] at hd
+    exact alignIn_mem part.periods t.date D' hd
+  have hin' : ∀ D ∈ part.endDates, (cfgOf f part).span.contains D = true := by
+    intro D hD
+    have := hin hne' _ hD
+    show part.span.contains _ = true
+    rw [hspan]; exact this
+  -- the pipeline statement for a column
+  have hcol : ∀ (k : Nat) (hk : k < part.endDates.length) (F : Int), IsEve (cfgOf f part) F part.endDates[k] →
+      ∃ mD mF,
+        Spec.mtmOver v (Builder.ofList ds).build (Spec.sourceAccounts (rowSel f e.account) (Builder.ofList ds).build)
+          part.endDates[k] = some mD ∧
+        Spec.mtmOver v (Builder.ofList ds).build (Spec.sourceAccounts (rowSel f e.account) (Builder.ofList ds).build) F = some mF ∧
+        ((accCum e.account st.entries part.endDates[k] - accCum e.account st.entries F) - (mD - mF)).abs ≤
+          (Spec.stepBoundOver v (Builder.ofList ds).build (Spec.sourceAccounts (rowSel f e.account) (Builder.ofList ds).build)
+            F part.endDates[k] : Rat) / (10 : Rat) ^ 8 ∧
+        (F = part.span.start - 1 → accCum e.account st.entries F = 0) := by
+    intro k hk F hF
+    have hDmem : part.endDates[k] ∈ part.endDates := List.getElem_mem hk
+    obtain ⟨mD, mF, h1, h2, h3, h4, h5⟩ := run_row_mapped (cfgOf f part) v e.account (daysOf f ds part) st F part.endDates[k]
+      hcv hf.com hal (daysOf_sorted f ds part) (daysOf_consistent f ds part) (daysOf_zero f ds part hz) hinc hDmem hF
+      (hin' _ hDmem) hrun
+    rw [srcSel_cfgOf, sourceAccounts_daysOf, mtmOver_daysOf] at h1 h2
+    rw [srcSel_cfgOf, sourceAccounts_daysOf, stepBoundOver_daysOf] at h3 h4
+    refine ⟨mD, mF, h1, h2, ?_, h5⟩
+    rw [← mul_ulp]
+    exact abs_le_of h3 h4
+  cases hdf : f.diff with
+  | false =>
+    obtain ⟨cells, hnode, hlen, hcell⟩ := nodeRows_valued rc hrv hrs (by rw [hrd, hdf])
+      (st.entries.filter (fun e => e.account.isAL)) false e.account.segments (2 * (e.account.segments.length - 1))
+    rw [hnode] at hrows
+    refine ⟨pre, post, cells, hrows, by rw [hlen, hre], ?_⟩
+    intro k hk hk'
+    have hev : cellEve f part k = part.span.start - 1 := by unfold cellEve; rw [hdf]; rfl
+    rw [hev]
+    obtain ⟨mD, mF, h1, h2, h3, h5⟩ := hcol k hk (part.span.start - 1) (Or.inl rfl)
+    refine ⟨mD, mF, h1, h2, ?_⟩
+    have hcv' := hcell k hk'
+    simp only [Bool.false_eq_true, if_false] at hcv'
+    have hk2 : k < rc.endDates.length := by rw [hre]; exact hk
+    have hcum := cum_eq_accCum e.account (st.entries.filter (fun e => e.account.isAL)) rc.endDates
+      (by rw [hre]; exact hinc) (by rw [hre]; exact hdates) k hk2
+    rw [hcv', hcum, accCum_al e.account hal]
+    have : rc.endDates[k] = part.endDates[k] := by simp only [hre]
+    rw [this]
+    rw [h5 rfl] at h3
+    rw [rat_sub_zero] at h3
+    exact h3
+  | true =>
+    obtain ⟨cells, hnode, hlen, hcell⟩ := nodeRows_valued_diff rc hrv hrs (by rw [hrd, hdf])
+      (st.entries.filter (fun e => e.account.isAL)) false e.account.segments (2 * (e.account.segments.length - 1))
+    rw [hnode] at hrows
+    refine ⟨pre, post, cells, hrows, by rw [hlen, hre], ?_⟩
+    intro k hk hk'
+    have hev : cellEve f part k = colEve part k := by unfold cellEve; rw [hdf]; rfl
+    rw [hev]
+    have hk2 : k < rc.endDates.length := by rw [hre]; exact hk
+    have hcv' := hcell k hk2 hk'
+    simp only [Bool.false_eq_true, if_false] at hcv'
+    have hreK : rc.endDates[k] = part.endDates[k] := by simp only [hre]
+    rw [hcv', hreK]
+    cases k with
+    | zero =>
+      rw [diff_eq_accCum_zero e.account _ part.endDates hinc hdates hk, accCum_al e.account hal]
+      obtain ⟨mD, mF, h1, h2, h3, h5⟩ := hcol 0 hk (part.span.start - 1) (Or.inl rfl)
+      refine ⟨mD, mF, h1, h2, ?_⟩
+      rw [h5 rfl] at h3
+      rw [rat_sub_zero] at h3
+      exact h3
+    | succ j =>
+      have hj : j < part.endDates.length := by omega
+      have hFmem : part.endDates[j] ∈ part.endDates := List.getElem_mem hj
+      have hFD : part.endDates[j] < part.endDates[j + 1] :=
+        List.pairwise_iff_getElem.mp hinc j (j + 1) hj hk (by omega)
+      rw [diff_eq_accCum_sub e.account _ part.endDates hinc hdates j hk, accCum_al e.account hal, accCum_al e.account hal]
+      have hev2 : colEve part (j + 1) = part.endDates[j] := by
+        unfold colEve
+        simp only [List.getD_eq_getElem?_getD, List.getElem?_eq_getElem hj, Option.getD_some]
+      rw [hev2]
+      obtain ⟨mD, mF, h1, h2, h3, _⟩ := hcol (j + 1) hk part.endDates[j] (Or.inr ⟨hFmem, hFD, hin' _ hFmem⟩)
+      exact ⟨mD, mF, h1, h2, h3⟩
+
+/-! ### Non-vacuity (mapped rows)
+
+Two accounts `Assets:B:X` (100 CHF; −1 USD on day 2, −1 USD more on day 4) and `Assets:B:Y` (4.5 USD bought on day 2,
+1 sold on day 4), USD priced 0.5 on day 2 and 1.333333333 on day 3; report `-m 2` (every account collapsed to two
+segments), window days 3–4, valued in CHF.  The single row `Assets:B` shows 0.24999999; the journal's accounts collected
+in it are `X` and `Y`; `Spec.mtmOver` of the two is 101.999999995 on day 4 and 101.75 on the eve (day 2): difference
+0.249999995, deviation 5·10⁻⁹, bound 4·10⁻⁸ (per account: one price day and one non-zero USD booking in the window). -/
+
+def exBX : Account := ⟨["Assets", "B", "X"]⟩
+def exBY : Account := ⟨["Assets", "B", "Y"]⟩
+def exB : Account := ⟨["Assets", "B"]⟩
+def exDirsM : List Directive :=
+  [.opening ⟨1, exBX⟩, .opening ⟨1, exBY⟩, .opening ⟨1, exE⟩,
+   .tx (Transaction.ofBookings 1 "cash" none [⟨exE, exBX, 100, "CHF"⟩]),
+   .price ⟨2, "USD", 1/2, "CHF"⟩,
+   .tx (Transaction.ofBookings 2 "buy" none [⟨exE, exBY, 7/2, "USD"⟩, ⟨exBX, exBY, 1, "USD"⟩]),
+   .price ⟨3, "USD", 1333333333/1000000000, "CHF"⟩,
+   .tx (Transaction.ofBookings 4 "sell" none [⟨exBY, exE, 1, "USD"⟩, ⟨exBX, exE, 1, "USD"⟩])]
+def exFlagsM : BalanceFlags :=
+  { valuation := some "CHF", from? := some 3, to := 4, mapping := [{ level := 2, suffix := 0, test := fun _ => true }] }
+
+example : MappedFlags exFlagsM "CHF" := ⟨rfl, rfl, fun _ => rfl⟩
+
+example : ∀ t, Directive.tx t ∈ exDirsM → ∀ p ∈ t.postings, p.value = 0 := by
+  intro t ht
+  simp only [exDirsM, List.mem_cons, List.not_mem_nil, or_false, reduceCtorEq, false_or, Directive.tx.injEq] at ht
+  rcases ht with rfl | rfl | rfl <;> exact ofBookings_zero _ _ _ _
+
+example : (match BalanceCmd.entries exFlagsM exDirsM with
+    | .ok (es, part) =>
+      decide (part.span = ⟨3, 4⟩ ∧ part.endDates = [4] ∧ (∃ e ∈ es, e.account = exB) ∧
+        [Cell.text "B".toList .left 2, Cell.num (24999999/100000000)] ∈
+          (BalanceReport.table (BalanceCmd.renderCfg exFlagsM part) es).rows ∧
+        cellEve exFlagsM part 0 = 2 ∧
+        Spec.sourceAccounts (rowSel exFlagsM exB) (Builder.ofList exDirsM).build = [exBX, exBY] ∧
+        Spec.mtmOver "CHF" (Builder.ofList exDirsM).build [exBX, exBY] 4 = some (101999999995/1000000000) ∧
+        Spec.mtmOver "CHF" (Builder.ofList exDirsM).build [exBX, exBY] 2 = some (10175/100) ∧
+        Spec.stepBoundOver "CHF" (Builder.ofList exDirsM).build [exBX, exBY] 2 4 = 4)
+    | .error _ => false) = true := by decide +kernel
+
+/-! ## `-s regex`: the commodity column and the per-commodity lines -/
+
+/-- the flags of a valued report with `-s`: any `-m`, `--remap`, `--account`, cumulative or `--diff`; no `--commodity` -/
+structure ShowFlags (f : BalanceFlags) (v : Commodity) (sh : String → Bool) : Prop where
+  valuation : f.valuation = some v
+  show_ : f.showCommodities = some sh
+  com : ∀ s, f.commodityFilter s = true
+
+theorem cellEve_eq (f : BalanceFlags) (part : Partition) (k : Nat) :
+    cellEve f part k = eveOf f.diff part.span.start part.endDates k := by
+  unfold cellEve eveOf colEve
+  cases f.diff <;> cases k <;> rfl
+
+theorem mtmPosOver_daysOf (f : BalanceFlags) (ds : List Directive) (part : Partition) (v : Commodity) (S : List Account)
+    (c : Commodity) (D : Int) :
+    Spec.mtmPosOver v (daysOf f ds part) S c D = Spec.mtmPosOver v (Builder.ofList ds).build S c D := by
+  unfold Spec.mtmPosOver
+  have : (fun a => Spec.mtmPos v (daysOf f ds part) a c D) = (fun a => Spec.mtmPos v (Builder.ofList ds).build a c D) := by
+    funext a
+    unfold Spec.mtmPos
+    rw [qtyAt_daysOf, pricesAt_daysOf]
+  rw [this]
+
+theorem stepCountOver_daysOf (f : BalanceFlags) (ds : List Directive) (part : Partition) (v : Commodity) (S : List Account)
+    (F D : Int) (c : Commodity) :
+    Spec.stepCountOver v (daysOf f ds part) S F D c = Spec.stepCountOver v (Builder.ofList ds).build S F D c := by
+  unfold Spec.stepCountOver
+  have : (fun a => Spec.stepCount v (daysOf f ds part) a F D c) = (fun a => Spec.stepCount v (Builder.ofList ds).build a F D c) := by
+    funext a
+    rw [← stepCount_core, core_daysOf, stepCount_core]
+  rw [this]
+
+/-- the facts about the command's partition and inserts shared by the `-s` theorems -/
+theorem show_setup (f : BalanceFlags) (v : Commodity) (hv : f.valuation = some v)
+    (ds : List Directive) (part : Partition) (st : BalState)
+    (hpart : newPartition (BalanceCmd.window f (Builder.ofList ds)) f.interval f.last = .ok part)
+    (hrun : Balance.run (cfgOf f part) (daysOf f ds part) = .ok st)
+    (e : Entry) (he : e ∈ st.entries) (hal : e.account.isAL = true) :
+    List.Pairwise (· < ·) part.endDates ∧ (∀ D ∈ part.endDates, (cfgOf f part).span.contains D = true) ∧
+    (∀ x ∈ st.entries.filter (fun e => e.account.isAL), x.account = e.account →
+      ∀ D', x.date = some D' → D' ∈ part.endDates) := by
+  have hcv : (cfgOf f part).valuation = some v := hv
+  have hne := window_nonempty_of_entry_mapped (cfgOf f part) v hcv _ st hrun e he hal
+  have hspan := Performance.newPartition_span hpart
+  obtain ⟨hinc, hin⟩ := Performance.endDates_increasing hpart
+  have hne' : (BalanceCmd.window f (Builder.ofList ds)).start ≤ (BalanceCmd.window f (Builder.ofList ds)).stop := by
+    rw [← hspan]; exact hne
+  refine ⟨hinc, ?_, ?_⟩
+  · intro D hD
+    have := hin hne' _ hD
+    show part.span.contains _ = true
+    rw [hspan]; exact this
+  · intro x hx _ D' hd
+    obtain ⟨txs, _, hes⟩ := run_pipelineRun (cfgOf f part) _ st hrun
+    have hx' := (List.mem_filter.mp hx).1
+    rw [hes] at hx'
+    obtain ⟨t, _, hdt⟩ := mem_queryTx_date (cfgOf f part) txs x hx'
+    rw [hdt] at hd
+    exact alignIn_mem part.periods t.date D' hd
+
+/-- **`-s`, a row whose name the regex does not match**: the row has the name cell, ONE commodity cell, then the value
+cells, and these are as in `C03_command_cell_mapped`: within `Spec.stepBoundOver/10⁸` of
+`Spec.mtmOver … D_k − Spec.mtmOver … F_k` over the journal's accounts collected in the row -/
+theorem C03_command_cell_show_other (f : BalanceFlags) (v : Commodity) (sh : String → Bool) (hf : ShowFlags f v sh)
+    (ds : List Directive) (hz : ∀ t, Directive.tx t ∈ ds → ∀ p ∈ t.postings, p.value = 0)
+    (es : List Entry) (part : Partition) (h : BalanceCmd.entries f ds = .ok (es, part))
+    (r : Account) (hal : r.isAL = true) (hmem : ∃ e ∈ es, e.account = r) (hsh : sh r.name = false) :
+    ∃ pre post comm cells,
+      (BalanceReport.table (BalanceCmd.renderCfg f part) es).rows =
+        pre ++ [Cell.text (r.segments.getLast?.getD "").toList .left ((2 * (r.segments.length - 1) : Nat) : Int) ::
+          comm :: cells] ++ post ∧
+      cells.length = part.endDates.length ∧
+      ∀ (k : Nat) (hk : k < part.endDates.length) (hk' : k < cells.length),
+        ∃ mD mF,
+          Spec.mtmOver v (Builder.ofList ds).build (Spec.sourceAccounts (rowSel f r) (Builder.ofList ds).build)
+            part.endDates[k] = some mD ∧
+          Spec.mtmOver v (Builder.ofList ds).build (Spec.sourceAccounts (rowSel f r) (Builder.ofList ds).build)
+            (cellEve f part k) = some mF ∧
+          (cellVal cells[k] - (mD - mF)).abs ≤
+            (Spec.stepBoundOver v (Builder.ofList ds).build (Spec.sourceAccounts (rowSel f r) (Builder.ofList ds).build)
+              (cellEve f part k) part.endDates[k] : Rat) / (10 : Rat) ^ 8 := by
+  obtain ⟨hpart, st, hrun, rfl⟩ := entries_ok h
+  obtain ⟨e, he, rfl⟩ := hmem
+  have hcv : (cfgOf f part).valuation = some v := hf.valuation
+  obtain ⟨hinc, hin', hdates⟩ := show_setup f v hf.valuation ds part st hpart hrun e he hal
+  generalize hrc : BalanceCmd.renderCfg f part = rc
+  have hrv : rc.valuation.isSome = true := by rw [← hrc]; unfold BalanceCmd.renderCfg; rw [hf.valuation]; rfl
+  have hrs : rc.showCommodities (⟨e.account.segments⟩ : Account).name = false := by
+    rw [← hrc]; unfold BalanceCmd.renderCfg; rw [hf.show_]; exact hsh
+  have hrd : rc.diff = f.diff := by rw [← hrc]; rfl
+  have hre : rc.endDates = part.endDates := by rw [← hrc]; rfl
+  have hdc : (rc.valuation.isNone || rc.hasShowCommodities) = true := by
+    rw [← hrc]; unfold BalanceCmd.renderCfg; rw [hf.valuation, hf.show_]; rfl
+  obtain ⟨pre, post, hrows⟩ := table_has_row rc st.entries e he hal
+  rw [hdc] at hrows
+  obtain ⟨cc, cells, hnode, hcc, hlen, hcell⟩ := nodeRows_valued_dc rc true hrv (st.entries.filter (fun e => e.account.isAL)) false
+    e.account.segments (2 * (e.account.segments.length - 1)) hrs
+  rw [hnode] at hrows
+  simp only [if_true] at hcc
+  obtain ⟨comm, rfl⟩ : ∃ comm, cc = [comm] := by
+    cases cc with
+    | nil => cases hcc
+    | cons x rest =>
+      cases rest with
+      | nil => exact ⟨x, rfl⟩
+      | cons y rest2 => simp at hcc
+  refine ⟨pre, post, comm, cells, hrows, by rw [hlen, hre], ?_⟩
+  intro k hk hk'
+  have hk2 : k < rc.endDates.length := by rw [hre]; exact hk
+  have hDmem : part.endDates[k] ∈ part.endDates := List.getElem_mem hk
+  have hF := eveOf_isEve (cfgOf f part) part.endDates rfl hinc hin' f.diff k hk
+  obtain ⟨mD, mF, h1, h2, h3, h4, h5⟩ := run_row_mapped (cfgOf f part) v e.account (daysOf f ds part) st
+    (eveOf f.diff part.span.start part.endDates k) part.endDates[k]
+    hcv hf.com hal (daysOf_sorted f ds part) (daysOf_consistent f ds part) (daysOf_zero f ds part hz) hinc hDmem hF
+    (hin' _ hDmem) hrun
+  rw [srcSel_cfgOf, sourceAccounts_daysOf, mtmOver_daysOf] at h1 h2
+  rw [srcSel_cfgOf, sourceAccounts_daysOf, stepBoundOver_daysOf] at h3 h4
+  rw [cellEve_eq]
+  refine ⟨mD, mF, h1, h2, ?_⟩
+  have hz0 : accCum e.account (st.entries.filter (fun e => e.account.isAL)) (part.span.start - 1) = 0 := by
+    rw [accCum_al e.account hal]
+    obtain ⟨_, _, _, _, _, _, z⟩ := run_row_mapped (cfgOf f part) v e.account (daysOf f ds part) st
+      (part.span.start - 1) part.endDates[k]
+      hcv hf.com hal (daysOf_sorted f ds part) (daysOf_consistent f ds part) (daysOf_zero f ds part hz) hinc hDmem (Or.inl rfl)
+      (hin' _ hDmem) hrun
+    exact z rfl
+  have hcv' := hcell k hk2 hk'
+  simp only [Bool.false_eq_true, if_false] at hcv'
+  rw [hcv', hrd]
+  have hsd := shownAt_delta e.account (st.entries.filter (fun e => e.account.isAL)) part.endDates hinc hdates f.diff
+    part.span.start hz0 k hk
+  simp only [hre]
+  rw [hsd, accCum_al e.account hal, accCum_al e.account hal, ← mul_ulp]
+  exact abs_le_of h3 h4
+
+/-- **`-s`, a row whose name the regex matches: one line per commodity.**  The rows of the asset/liability row account
+`r` form a block of the table that starts with the name cell of `r`.  For every commodity `c` (with `S` the journal's
+accounts collected in the row, `D_k` the period end and `F_k` the eve of column `k`): every line of the block that
+carries `c` in the commodity column has one value cell per column, and the cell of column `k` is within
+`Spec.stepCountOver … S F_k D_k c / 10⁸` of `Spec.mtmPosOver … S c D_k − Spec.mtmPosOver … S c F_k` — summed quantity ×
+normalised price of the position, at the period end minus at the eve; and if the block has no line for `c`, that
+difference is itself within the bound of 0. -/
+theorem C03_command_cell_show (f : BalanceFlags) (v : Commodity) (sh : String → Bool) (hf : ShowFlags f v sh)
+    (ds : List Directive) (hz : ∀ t, Directive.tx t ∈ ds → ∀ p ∈ t.postings, p.value = 0)
+    (es : List Entry) (part : Partition) (h : BalanceCmd.entries f ds = .ok (es, part))
+    (r : Account) (hal : r.isAL = true) (hmem : ∃ e ∈ es, e.account = r) (hsh : sh r.name = true) :
+    ∃ pre block post rest tail,
+      (BalanceReport.table (BalanceCmd.renderCfg f part) es).rows = pre ++ block ++ post ∧
+      block = (Cell.text (r.segments.getLast?.getD "").toList .left ((2 * (r.segments.length - 1) : Nat) : Int) :: rest) :: tail ∧
+      ∀ (c : Commodity),
+        (∀ (first : Cell) (cells : List Cell), (first :: Cell.text c.toList .left 0 :: cells) ∈ block →
+          cells.length = part.endDates.length ∧
+          ∀ (k : Nat) (hk : k < part.endDates.length) (hk' : k < cells.length),
+            ∃ mD mF,
+              Spec.mtmPosOver v (Builder.ofList ds).build (Spec.sourceAccounts (rowSel f r) (Builder.ofList ds).build) c
+                part.endDates[k] = some mD ∧
+              Spec.mtmPosOver v (Builder.ofList ds).build (Spec.sourceAccounts (rowSel f r) (Builder.ofList ds).build) c
+                (cellEve f part k) = some mF ∧
+              (cellVal cells[k] - (mD - mF)).abs ≤
+                (Spec.stepCountOver v (Builder.ofList ds).build (Spec.sourceAccounts (rowSel f r) (Builder.ofList ds).build)
+                  (cellEve f part k) part.endDates[k] c : Rat) / (10 : Rat) ^ 8) ∧
+        ((∀ (first : Cell) (cells : List Cell), (first :: Cell.text c.toList .left 0 :: cells) ∉ block) →
+          ∀ (k : Nat) (hk : k < part.endDates.length),
+            ∃ mD mF,
+              Spec.mtmPosOver v (Builder.ofList ds).build (Spec.sourceAccounts (rowSel f r) (Builder.ofList ds).build) c
+                part.endDates[k] = some mD ∧
+              Spec.mtmPosOver v (Builder.ofList ds).build (Spec.sourceAccounts (rowSel f r) (Builder.ofList ds).build) c
+                (cellEve f part k) = some mF ∧
+              (0 - (mD - mF)).abs ≤
+                (Spec.stepCountOver v (Builder.ofList ds).build (Spec.sourceAccounts (rowSel f r) (Builder.ofList ds).build)
+                  (cellEve f part k) part.endDates[k] c : Rat) / (10 : Rat) ^ 8) := by
+  obtain ⟨hpart, st, hrun, rfl⟩ := entries_ok h
+  obtain ⟨e, he, rfl⟩ := hmem
+  have hcv : (cfgOf f part).valuation = some v := hf.valuation
+  obtain ⟨hinc, hin', hdates⟩ := show_setup f v hf.valuation ds part st hpart hrun e he hal
+  generalize hrc : BalanceCmd.renderCfg f part = rc
+  have hrs : rc.showCommodities (⟨e.account.segments⟩ : Account).name = true := by
+    rw [← hrc]; unfold BalanceCmd.renderCfg; rw [hf.show_]; exact hsh
+  have hrd : rc.diff = f.diff := by rw [← hrc]; rfl
+  have hre : rc.endDates = part.endDates := by rw [← hrc]; rfl
+  have hdc : (rc.valuation.isNone || rc.hasShowCommodities) = true := by
+    rw [← hrc]; unfold BalanceCmd.renderCfg; rw [hf.valuation, hf.show_]; rfl
+  obtain ⟨pre, post, hrows⟩ := table_has_row rc st.entries e he hal
+  rw [hdc] at hrows
+  obtain ⟨⟨rest, tail, hblock⟩, hline, hnone⟩ := nodeRows_show rc (st.entries.filter (fun e => e.account.isAL)) false
+    e.account.segments (2 * (e.account.segments.length - 1)) hrs
+  refine ⟨pre, _, post, rest, tail, hrows, hblock, ?_⟩
+  intro c
+  -- the pipeline statement for column `k`
+  have hcol : ∀ (k : Nat) (hk : k < part.endDates.length),
+      ∃ mD mF,
+        Spec.mtmPosOver v (Builder.ofList ds).build (Spec.sourceAccounts (rowSel f e.account) (Builder.ofList ds).build) c
+          part.endDates[k] = some mD ∧
+        Spec.mtmPosOver v (Builder.ofList ds).build (Spec.sourceAccounts (rowSel f e.account) (Builder.ofList ds).build) c
+          (cellEve f part k) = some mF ∧
+        ((shownAt f.diff part.endDates (BalanceReport.cellAt (BalanceReport.own (st.entries.filter (fun e => e.account.isAL))
+            e.account.segments) true (some c)) k) - (mD - mF)).abs ≤
+          (Spec.stepCountOver v (Builder.ofList ds).build (Spec.sourceAccounts (rowSel f e.account) (Builder.ofList ds).build)
+            (cellEve f part k) part.endDates[k] c : Rat) / (10 : Rat) ^ 8 := by
+    intro k hk
+    have hDmem : part.endDates[k] ∈ part.endDates := List.getElem_mem hk
+    have hF := eveOf_isEve (cfgOf f part) part.endDates rfl hinc hin' f.diff k hk
+    obtain ⟨mD, mF, h1, h2, h3, h4, _⟩ := run_posrow_mapped (cfgOf f part) v e.account c (daysOf f ds part) st
+      (eveOf f.diff part.span.start part.endDates k) part.endDates[k]
+      hcv hf.com hal (daysOf_sorted f ds part) (daysOf_consistent f ds part) (daysOf_zero f ds part hz) hinc hDmem hF
+      (hin' _ hDmem) hrun
+    rw [srcSel_cfgOf, sourceAccounts_daysOf, mtmPosOver_daysOf] at h1 h2
+    rw [srcSel_cfgOf, sourceAccounts_daysOf, stepCountOver_daysOf] at h3 h4
+    rw [cellEve_eq]
+    refine ⟨mD, mF, h1, h2, ?_⟩
+    have hz0 : posCum e.account c (st.entries.filter (fun e => e.account.isAL)) (part.span.start - 1) = 0 := by
+      rw [posCum_al e.account hal]
+      obtain ⟨_, _, _, _, _, _, z⟩ := run_posrow_mapped (cfgOf f part) v e.account c (daysOf f ds part) st
+        (part.span.start - 1) part.endDates[k]
+        hcv hf.com hal (daysOf_sorted f ds part) (daysOf_consistent f ds part) (daysOf_zero f ds part hz) hinc hDmem (Or.inl rfl)
+        (hin' _ hDmem) hrun
+      exact z rfl
+    have hsd := shownAt_delta_pos e.account c (st.entries.filter (fun e => e.account.isAL)) part.endDates hinc hdates f.diff
+      part.span.start hz0 k hk
+    rw [hsd, posCum_al e.account hal, posCum_al e.account hal, ← mul_ulp]
+    exact abs_le_of h3 h4
+  constructor
+  · intro first cells hm
+    obtain ⟨hlen, hcell⟩ := hline c first cells hm
+    refine ⟨by rw [hlen, hre], ?_⟩
+    intro k hk hk'
+    have hk2 : k < rc.endDates.length := by rw [hre]; exact hk
+    obtain ⟨mD, mF, h1, h2, h3⟩ := hcol k hk
+    refine ⟨mD, mF, h1, h2, ?_⟩
+    have hcv' := hcell k hk2 hk'
+    simp only [Bool.false_eq_true, if_false] at hcv'
+    rw [hcv', hrd]
+    simp only [hre]
+    exact h3
+  · intro hno k hk
+    obtain ⟨mD, mF, h1, h2, h3⟩ := hcol k hk
+    refine ⟨mD, mF, h1, h2, ?_⟩
+    have hzero := hnone c hno
+    have : shownAt f.diff part.endDates (BalanceReport.cellAt (BalanceReport.own (st.entries.filter (fun e => e.account.isAL))
+        e.account.segments) true (some c)) k = 0 := by
+      unfold shownAt
+      split
+      · exact hzero _
+      · exact sum_map_zero _ _ (fun d _ => hzero d)
+    rw [this] at h3
+    exact h3
+
+/-! ### Non-vacuity (`-s`)
+
+The journal of the mapped example, daily `--diff` columns from day 2 to day 4, `-m 2`, `-s '^Assets:B$'`.  The block of
+`Assets:B` has ONE line, commodity USD: 1.75, 2.91666665, −2.66666666; the USD position of the two collected accounts
+is worth 0, 1.75, 4.666666655, 1.999999995 on days 1–4 (`Spec.mtmPosOver`): differences 1.75, 2.916666655, −2.66666666.
+There is no CHF line: the 100 CHF were booked before the window, `Spec.mtmPosOver … "CHF"` is 100 throughout. -/
+
+def exFlagsS : BalanceFlags :=
+  { valuation := some "CHF", from? := some 2, to := 4, interval := .daily, diff := true,
+    showCommodities := some (fun s => s == "Assets:B"),
+    mapping := [{ level := 2, suffix := 0, test := fun _ => true }] }
+
+example : ShowFlags exFlagsS "CHF" (fun s => s == "Assets:B") ∧ (fun s => s == "Assets:B") exB.name = true :=
+  ⟨⟨rfl, rfl, fun _ => rfl⟩, by decide⟩
+
+example : (match BalanceCmd.entries exFlagsS exDirsM with
+    | .ok (es, part) =>
+      decide (part.span = ⟨2, 4⟩ ∧ part.endDates = [2, 3, 4] ∧ (∃ e ∈ es, e.account = exB) ∧
+        [Cell.text "B".toList .left 2, Cell.text "USD".toList .left 0, Cell.num (7/4), Cell.num (291666665/100000000),
+            Cell.num (-(266666666/100000000))] ∈
+          (BalanceReport.table (BalanceCmd.renderCfg exFlagsS part) es).rows ∧
+        cellEve exFlagsS part 0 = 1 ∧ cellEve exFlagsS part 1 = 2 ∧ cellEve exFlagsS part 2 = 3 ∧
+        Spec.sourceAccounts (rowSel exFlagsS exB) (Builder.ofList exDirsM).build = [exBX, exBY] ∧
+        [1, 2, 3, 4].map (Spec.mtmPosOver "CHF" (Builder.ofList exDirsM).build [exBX, exBY] "USD") =
+          [some 0, some (7/4), some (4666666655/1000000000), some (1999999995/1000000000)] ∧
+        [1, 2, 3, 4].map (Spec.mtmPosOver "CHF" (Builder.ofList exDirsM).build [exBX, exBY] "CHF") =
+          [some 100, some 100, some 100, some 100] ∧
+        Spec.stepCountOver "CHF" (Builder.ofList exDirsM).build [exBX, exBY] 2 3 "USD" = 2 ∧
+        Spec.stepCountOver "CHF" (Builder.ofList exDirsM).build [exBX, exBY] 3 4 "USD" = 2)
     | .error _ => false) = true := by decide +kernel
 
 end Knut.C03
